@@ -40,7 +40,7 @@ def worker(w, ids):
     head = sh('git -C /repo rev-parse --short HEAD')[1].strip()
     for sid in ids:
         sdir = os.path.join(SEEDED, sid)
-        res = {'id': sid, 'property': sid.split('-')[0], 'repo_head': head}
+        res = {'id': sid, 'property': [x for x in sid.split('-') if x.startswith('C')][0], 'repo_head': head}
         try:
             am = json.load(open(os.path.join(sdir, 'agent_meta.json')))
         except Exception:
